@@ -349,3 +349,63 @@ func runSendAfterClose(c *Ctx, an *locks.Analysis) {
 		})
 	}
 }
+
+// nil-map-write (C09): a map field that some method sets to nil (Close releasing its tables) must not be written by
+// another method without a nil test: an assignment into a nil map panics, and the packet loop can still be inside -
+// or enter - that method when Close runs.
+func runNilMapWrite(c *Ctx) {
+	r := c.R
+	r.Rule("nil-map-write", "map fields that are set to nil are never assigned into without a nil test", 0)
+	nilled := map[string]ssa.Instruction{}
+	for _, fn := range c.P.LibFunctions() {
+		if isConstructor(fn) {
+			continue
+		}
+		core.EachInstr(fn, func(i ssa.Instruction) {
+			st, ok := i.(*ssa.Store)
+			if !ok {
+				return
+			}
+			fa, isFA := st.Addr.(*ssa.FieldAddr)
+			k, isC := st.Val.(*ssa.Const)
+			if !isFA || !isC || k.Value != nil {
+				return
+			}
+			if _, isMap := k.Type().Underlying().(*types.Map); !isMap {
+				return
+			}
+			nilled[fieldOwner(fa)] = i
+		})
+	}
+	for _, fn := range c.P.LibFunctions() {
+		kg := core.NewKeyGen()
+		core.EachInstr(fn, func(i ssa.Instruction) {
+			mu, ok := i.(*ssa.MapUpdate)
+			if !ok {
+				return
+			}
+			ld, isLoad := mu.Map.(*ssa.UnOp)
+			if !isLoad {
+				return
+			}
+			fa, isFA := ld.X.(*ssa.FieldAddr)
+			if !isFA {
+				return
+			}
+			at, isNilled := nilled[fieldOwner(fa)]
+			if !isNilled {
+				return
+			}
+			st := core.Violated
+			for _, g := range guardsOf(i) {
+				if strings.Contains(g.Text, norm(mu.Map)+"==nil") && !g.Pol {
+					st = core.Proved
+				}
+			}
+			key := strings.TrimSuffix(kg.Key("nil-map-write "+fieldOwner(fa)+" in "+core.FuncName(fn)), "#0")
+			r.Add(core.Obligation{Rule: "nil-map-write", Key: key, Func: core.FuncName(fn), Pos: c.P.Pos(core.PosOf(i)), Status: st,
+				Basis: "the assignment is under a test that the map is not nil",
+				Detail: fieldOwner(fa) + " is set to nil at " + c.P.Pos(core.PosOf(at)) + " and assigned into here without a nil test: a call that follows (or overlaps) that one panics with 'assignment to entry in nil map'"})
+		})
+	}
+}
